@@ -92,6 +92,29 @@ CHECKS = {
         note="scaled timers at design level, real constants in recorded runs; attacker holds no trusted key",
         technique="TLA+ spec Node + TLC exhaustive (+ required refutation of the unrepaired dispatch); systematic injection plan on real nodes; TLC record validation",
         design_ref="DESIGN.md 3.6, 6 (C09)"),
+    "C02": dict(
+        text="Envelope.tla states when a sealed datagram opens (intact, sealed for this connection by the other end, slot holds its key, inside the window) and TLC checks it for a 3-end mesh "
+             "with every tamper class, reflection and cross-connection injection (variants without nonce halves / with key ids modulo 4 must be refuted); on real CryptoCore pairs and "
+             "PeerCrypto sessions: payload lengths 0..300 and sampled to 9000, all ciphers and negotiated combinations, buffer offsets, every bit flip and truncation, reflection, every ordered "
+             "pair of connections of three ends, cleartext search of sealed datagrams; TLC judges every recorded case / family.",
+        note="AEAD perfect in the spec; tamper = single bits and truncations, not all modifications; node-level interface-queue part is covered by C08/C09/C10 records",
+        technique="TLA+ spec Envelope + TLC (+ required refutations); exhaustive tamper families on real cores and sessions; TLC trace validation",
+        design_ref="DESIGN.md 6 (C02); docs/C02.md"),
+    "C06": dict(
+        text="TLC enumerates every pair of advertised cipher lists (orderings x speed grid x plain flags) and checks that the identity tie-break rule yields the same admissible cipher at "
+             "both ends (the list-order rule must be refuted); real handshakes with prescribed speeds for every pair of advertised sets x orderings x initiator, and every single-field edit "
+             "of the cipher list in a genuine ping/pong, are judged by TLC with Negotiate!OutcomeOK.",
+        note="NaN speeds excluded; a node cannot advertise an empty set except 'plain only'; speeds mapped order-preservingly to f32 incl. zero, ties and f32::MAX",
+        technique="TLA+ spec Negotiate + TLC exhaustive; real handshakes with the speed hook; TLC trace validation",
+        design_ref="DESIGN.md 3.3, 6 (C06); docs/C06.md"),
+    "C10": dict(
+        text="Forward.tla (data plane of a full mesh: interface read -> one copy per selected peer, payload delivery -> one interface write and nothing sent, learning and expiry) is checked "
+             "by TLC for NoRelay / ExactlyOnce / NoAmplification in switch, hub and router mode; TLC schedules and random 300-step sequences on real 3-5 node meshes are replayed through the "
+             "specification's own actions (Trace_Forward): admissible target set of every interface read, byte-identical single delivery, no relaying, control traffic never reaches an interface, "
+             "exactly-once at quiescence.",
+        note="payload delivered within the second it was sent; stable full mesh apart from explicit leave events",
+        technique="TLA+ spec Forward + TLC exhaustive; schedule replay and random sequences on real meshes; TLC trace validation",
+        design_ref="DESIGN.md 3.6, 6 (C10)"),
 }
 
 PENDING = {}
